@@ -305,6 +305,15 @@ func (x *Exec) specIdx(env *SpecEnv, e Expr) Term {
 }
 
 func (x *Exec) specIdent(env *SpecEnv, name string) SpecVal {
+	if env.frame != nil && env.depth == 0 {
+		// inside the body (loop invariants): the current value of a source
+		// variable shadows the parameter's entry value
+		if _, isParam := env.vars[name]; isParam || true {
+			if v, ok := x.localByName(env, name); ok {
+				return v
+			}
+		}
+	}
 	if v, ok := env.vars[name]; ok {
 		return v
 	}
@@ -436,26 +445,47 @@ func (x *Exec) localByName(env *SpecEnv, name string) (SpecVal, bool) {
 		}
 	}
 	var best ssa.Value
+	instrIndex := func(in ssa.Instruction) int {
+		for k, i2 := range in.Block().Instrs {
+			if i2 == in {
+				return k
+			}
+		}
+		return -1
+	}
+	// later(a, b): a is defined after b on every path to the current block
+	later := func(a, b ssa.Value) bool {
+		ai, aok := a.(ssa.Instruction)
+		bi, bok := b.(ssa.Instruction)
+		if !aok || ai.Block() == nil {
+			return false
+		}
+		if !bok || bi.Block() == nil {
+			return true // parameters / constants come first
+		}
+		if ai.Block() == bi.Block() {
+			return instrIndex(ai) > instrIndex(bi)
+		}
+		return bi.Block().Dominates(ai.Block())
+	}
 	for _, v := range x.names[name] {
 		if _, bound := f.regs[v]; !bound {
 			if _, isConst := v.(*ssa.Const); !isConst {
 				continue
 			}
 		}
-		in, isInstr := v.(ssa.Instruction)
-		if isInstr && f.block != nil && in.Block() != nil && in.Parent() == f.fn {
-			if !in.Block().Dominates(f.block) {
+		if in, isInstr := v.(ssa.Instruction); isInstr && in.Block() != nil {
+			if in.Parent() != f.fn {
 				continue
 			}
-			if best != nil {
-				if bi, ok := best.(ssa.Instruction); ok && bi.Block() != nil && bi.Block().Dominates(in.Block()) && bi.Block() != in.Block() {
-					best = v
-					continue
-				}
+			if f.block != nil && !in.Block().Dominates(f.block) {
 				continue
+			}
+			if f.block == in.Block() && instrIndex(in) >= f.idx {
+				continue // not yet executed at this position
 			}
 		}
-		if best == nil {
+		if best == nil || later(v, best) {
 			best = v
 		}
 	}
@@ -751,7 +781,9 @@ func (x *Exec) specCall(env *SpecEnv, c ECall) SpecVal {
 		if len(c.Args) != 1 {
 			unsupported("old takes one argument")
 		}
-		return x.spec(env.withState(env.old), c.Args[0])
+		oenv := env.withState(env.old)
+		oenv.frame = nil
+		return x.spec(oenv, c.Args[0])
 	case "len":
 		v := x.spec(env, c.Args[0])
 		if v.Seq != nil {
@@ -806,6 +838,30 @@ func (x *Exec) specCall(env *SpecEnv, c ECall) SpecVal {
 			}
 		}
 		return SpecVal{T: And(cs...)}
+	case "i64", "i32", "u64":
+		v := x.spec(env, c.Args[0])
+		w := 64
+		if c.Fn == "i32" {
+			w = 32
+		}
+		if v.Lit {
+			if x.mode != "bv" {
+				return SpecVal{T: IntLit(v.N)}
+			}
+			return SpecVal{T: BVLit(uint64(v.N), w)}
+		}
+		if !v.T.Sort.IsBV() {
+			return v
+		}
+		fw := v.T.Sort.BVWidth()
+		switch {
+		case fw == w:
+			return SpecVal{T: v.T}
+		case fw > w:
+			return SpecVal{T: mk(SBV(w), fmt.Sprintf("(_ extract %d 0)", w-1), v.T)}
+		default:
+			return SpecVal{T: mk(SBV(w), fmt.Sprintf("(_ sign_extend %d)", w-fw), v.T)}
+		}
 	case "calls":
 		f := x.specTerm(env, c.Args[0])
 		return SpecVal{T: Select(x.heapGet(env.st, "$calls", SArr(SInt, x.idxSort())), f)}
@@ -1125,11 +1181,11 @@ func (x *Exec) applyContractTail(cfg *Config, f *Frame, fn *ssa.Function, c *Fun
 		if tup, ok := t.(*types.Tuple); ok {
 			var tv TupV
 			for i := 0; i < tup.Len(); i++ {
-				tv = append(tv, x.symbolicOf(cfg.st, x.d.Fresh("res!"+sanitize(c.Key), SInt).S, tup.At(i).Type()))
+				tv = append(tv, x.symbolicOf(cfg.st, x.d.FreshName("res!"+sanitize(c.Key)), tup.At(i).Type()))
 			}
 			res = tv
 		} else {
-			res = x.symbolicOf(cfg.st, x.d.Fresh("res!"+sanitize(c.Key), SInt).S, t)
+			res = x.symbolicOf(cfg.st, x.d.FreshName("res!"+sanitize(c.Key)), t)
 		}
 	}
 	env.st = cfg.st
